@@ -1,6 +1,7 @@
 import CoupeModel.Model.Rcb
 import CoupeModel.Proofs.Rcb
 import CoupeModel.Proofs.RcbBalance
+import CoupeModel.Proofs.RcbRanked
 
 /-!
 # C03 — Rcb/Rib parts are leaves of a recursive axis-aligned bisection
@@ -158,9 +159,8 @@ theorem rcb_no_out_of_bounds {S : α → Prop} (laws : OrderLawsOn S) (wt : Int 
 /-- Termination of the cut search (`par_rcb_split`) in exact integer arithmetic: fuel
 `max − min + 2` is never exhausted, for every tolerance test, weights and items (the
 interval halves until it is at most one unit wide, then the target repeats and the count
-plateau exit – or the all-left exit – fires).  For `f32` the same argument needs "finitely
-many values between `min` and `max`", which is true but not formalised: there the fuel is
-an assumption, see `trusted_base`. -/
+plateau exit – or the all-left exit – fires).  The same argument for every ranked
+coordinate type, `f32` included modulo IEEE-754, is `split_terminates_ranked` below. -/
 theorem split_terminates_int (wt : Int → Int → Bool) (coord : Nat) (sum : Int)
     (items : List (Item Int)) (fuel : Nat) (mn mx : Int) (hle : mn ≤ mx)
     (hf : (mx - mn).toNat + 2 ≤ fuel) :
@@ -175,6 +175,63 @@ theorem rcb_len_mismatch (wt : Int → Int → Bool) (cfg : Cfg) (iter : Nat) (p
   rcases h with h | h
   · simp [h]
   · by_cases h' : ws.length = plen <;> simp [h, h']
+
+/-! ## Termination for every ranked coordinate type
+
+`RankedCoord α` (Proofs/RcbRanked.lean): a set `S` of values and `rank : α → Int`, strictly
+monotone for `<` on `S`, such that the target `(a + b) / 2.0` of two values of `S` is in `S`
+and lies, by rank, between them, and a target that has the rank of an end point reproduces
+itself in the next round (`mid_fix_lo`, `mid_fix_hi`).  `Int` is an instance (`intRanked`,
+proved).  `f32` is an instance by IEEE-754 (round-to-nearest is monotone, `a + a` is exact,
+finitely many floats; `S` = finite values of magnitude ≤ `f32::MAX / 2`): that is argued in
+the header of Proofs/RcbRanked.lean and remains TRUSTED, not proved. -/
+
+/-- Termination of the cut search (`par_rcb_split`) on ranked coordinates: fuel
+`rank max − rank min + 2` is never exhausted.  The measure `rank max − rank min` decreases
+in every round that moves an end point to a target of a different rank; otherwise the next
+target equals the current one, the fold returns the same `count_left`, and the
+`count_left == prev_count_left` test returns. -/
+theorem split_terminates_ranked (R : RankedCoord α) {So : α → Prop} (laws : OrderLawsOn So)
+    (wt : Int → Int → Bool) (coord : Nat) (sum : Int) (items : List (Item α)) (fuel : Nat) (mn mx : α)
+    (hS : ∀ x ∈ items, So (x.key coord)) (hmn : R.S mn) (hmx : R.S mx)
+    (hle : R.rank mn ≤ R.rank mx) (hf : (R.rank mx - R.rank mn).toNat + 2 ≤ fuel) :
+    split wt coord sum items fuel 0 mn mx none false ≠ .fuel :=
+  split_terminates_ranked_aux R laws wt coord sum items hS fuel 0 mn mx none false hmn hmx hle hf
+
+/-- `Int` is a ranked coordinate type: `split_terminates_int` again, this time as the
+instance `intRanked` of `split_terminates_ranked`. -/
+theorem split_terminates_int_ranked (wt : Int → Int → Bool) (coord : Nat) (sum : Int)
+    (items : List (Item Int)) (fuel : Nat) (mn mx : Int) (hle : mn ≤ mx)
+    (hf : (mx - mn).toNat + 2 ≤ fuel) :
+    split wt coord sum items fuel 0 mn mx none false ≠ .fuel :=
+  split_terminates_ranked intRanked intOrderLaws wt coord sum items fuel mn mx
+    (fun _ _ => trivial) trivial trivial hle hf
+
+/-- **`rcb` is total on ranked coordinates** (`D ≥ 1`): with every input coordinate in `S`
+and fuel at least the rank width of the point set on every axis plus two, `rcb` reports a
+length mismatch or returns ids – no out-of-range access, no search that outlives its fuel
+(every node's search starts from an interval inside the root's bounding box). -/
+theorem rcb_total_ranked (R : RankedCoord α) (laws : OrderLawsOn R.S) (wt : Int → Int → Bool)
+    (cfg : Cfg) (iter : Nat) (pts : List (List α)) (ws : List Int) (plen : Nat) (hdim : 0 < cfg.dim)
+    (hS : ∀ p ∈ pts, ∀ c, R.S (p.getD c Coord.zero))
+    (hfuel : ∀ p ∈ pts, ∀ q ∈ pts, ∀ c, c < cfg.dim →
+      (R.rank (q.getD c Coord.zero) - R.rank (p.getD c Coord.zero)).toNat + 2 ≤ cfg.fuel) :
+    run wt cfg iter pts ws plen = .lenMismatch ∨ ∃ ids, run wt cfg iter pts ws plen = .ok ids :=
+  run_total_ranked R laws wt cfg iter pts ws plen hdim hS hfuel
+
+/-- The exact-integer instance: fuel `(largest − smallest coordinate on any axis) + 2`. -/
+theorem rcb_total_int (wt : Int → Int → Bool) (cfg : Cfg) (iter : Nat) (pts : List (List Int))
+    (ws : List Int) (plen : Nat) (hdim : 0 < cfg.dim)
+    (hfuel : ∀ p ∈ pts, ∀ q ∈ pts, ∀ c, c < cfg.dim →
+      (q.getD c 0 - p.getD c 0).toNat + 2 ≤ cfg.fuel) :
+    run wt cfg iter pts ws plen = .lenMismatch ∨ ∃ ids, run wt cfg iter pts ws plen = .ok ids :=
+  run_total_ranked intRanked intOrderLaws wt cfg iter pts ws plen hdim (fun _ _ _ => trivial) hfuel
+
+/-- Non-vacuity of the fuel hypothesis of `rcb_total_int`: the input of the first example
+below spans 50 units in x and 100 in y. -/
+example : ∀ p ∈ [[-13, 60], [20, -40], [10, 10], [-30, -25], [-13, -3], [20, 10], [-30, 10], [13, -20]],
+    ∀ q ∈ [[-13, 60], [20, -40], [10, 10], [-30, -25], [-13, -3], [20, 10], [-30, 10], [13, -20]],
+    ∀ c, c < 2 → ((q : List Int).getD c 0 - (p : List Int).getD c 0).toNat + 2 ≤ 102 := by decide
 
 /-! Non-vacuity: `test_rcb_basic` scaled to integers (x10), two levels; the K1(b) outlier
 input; all points identical. -/
@@ -199,3 +256,7 @@ end Coupe.Rcb
 #print axioms Coupe.Rcb.rcb_no_out_of_bounds
 #print axioms Coupe.Rcb.rcb_len_mismatch
 #print axioms Coupe.Rcb.split_terminates_int
+#print axioms Coupe.Rcb.split_terminates_ranked
+#print axioms Coupe.Rcb.split_terminates_int_ranked
+#print axioms Coupe.Rcb.rcb_total_ranked
+#print axioms Coupe.Rcb.rcb_total_int
